@@ -292,6 +292,13 @@ impl Prop for C12 {
     fn run_block(&self, b: usize, sink: &mut Sink) {
         let ctx = sink.ctx.clone();
         let mut k = b;
+        if ctx.leg == crate::driver::Leg::Tsan {
+            // single-threaded bodies have nothing for the race detector: two-thread blocks only
+            let first = c01_n_blocks(&ctx) + c06_n_blocks() + c08_n_blocks(&ctx) + c09_n_blocks(&ctx) + c11_seq_space(&ctx).blocks.len();
+            if k < first || k == self.n_blocks(&ctx) - 1 {
+                return;
+            }
+        }
         // the C01 workload is large; C12 takes every 2nd request of it in the quick tier
         let n = c01_n_blocks(&ctx);
         if k < n {
